@@ -1056,6 +1056,8 @@ func replay(c *vh.Ctx, m *vh.Model, file string) {
 		frameIOProbes(c, m)
 	case "frame-lifetime":
 		replayLifetime(c, m, rp)
+	case "discover-history":
+		discoveryHistories(c, m)
 	case "discover-lifetime":
 		lifetimeDiscovery(c)
 	case "frame-tamper":
@@ -1131,6 +1133,7 @@ func main() {
 	frameIOProbes(c, m)
 	t1 := time.Now()
 	lifetimeDiscovery(c)
+	discoveryHistories(c, m)
 	discovery(c, m)
 	t2 := time.Now()
 	subproto(c, m)
